@@ -142,8 +142,11 @@ scmdProcessOrCheck(Bool doit, SrcPos spos, String cmd)
 	}
 	else if ((s = scmdIsDirective(cmd, "quit")) != 0) {
 		/* Doesn't make sense unless under the interpreter */
-		if (doit)
+		if (doit) {
+			if (comsgErrorCount() != 0)
+				exitFailure();
 			exitSuccess();
+		}
 	}
 	else if ((s = scmdIsDirective(cmd, "int")) != 0) {
 		if (doit) {
